@@ -152,7 +152,7 @@ PROPS = {
     },
     "C04": {
         "kani": [],
-        "verus": ["M", "Q"],
+        "verus": ["M", "Q", "N"],
         "trusted_base": ["Verus 0.2026.09.13 + Z3 (unit M: lifted task bodies of Command::{then, map_effect, map_event, event, notify_shell}; unit Q: Command::{new, done, spawn, all, and}, CommandSink::start_send)"],
         "assumptions": [
             "rule X17 (synchronous projection): each combinator is `Command::new(|ctx| async move { .. })`; the closure's block is lifted into a function of what it captures and `.await` is erased - the awaited future has run to its end when the next statement starts (drops: rustc's future state machine and when the pieces are polled; keeps every statement and argument)",
@@ -264,7 +264,7 @@ PROPS = {
     },
     "C01": {
         "kani": [],
-        "verus": ["Q", "X"],
+        "verus": ["Q", "X", "N"],
         "trusted_base": ["Verus 0.2026.09.13 + Z3 (unit Q: about 60 extracted functions of capability/{executor,channel,mod}.rs, core/mod.rs, command/{mod,executor,stream,context}.rs incl. the constructors; unit X: ShellStream::{send,poll_next}, ShellRequest::poll)"],
         "assumptions": [
             "crossbeam-channel unbounded channels used sequentially are FIFO queues: try_recv returns the head iff non-empty and removes it, send appends, is_empty reads (assumed contracts in verus/Q/unit.rs)",
